@@ -47,6 +47,16 @@ def thorough_extras(prop: str, rep: Report) -> None:
             rep.extra["seeded"] = {o["id"]: o["status"] for o in res}
         except Exception:
             rep.extra["seeded"] = {"error": (r2.stdout + r2.stderr)[-300:]}
+        # whole-tree behaviour-preserving transformations and the kept refactorings of the sub-agents: this check must stay silent
+        r3 = subprocess.run([sys.executable, os.path.join(verif, "selftest", "rename_locals.py"), "--mode", "all", "--check", prop], capture_output=True, text=True, env=env)
+        rep.extra["transformed_tree_silent"] = (r3.returncode == 0)
+        j4 = os.path.join(td, "refac.json")
+        r4 = subprocess.run([sys.executable, os.path.join(verif, "selftest", "refactorings.py"), "--check", prop, "--json", j4], capture_output=True, text=True, env=env)
+        try:
+            res4 = json.load(open(j4))
+            rep.extra["refactorings"] = {"kept": len(res4), "non_silent": sorted(k for k, v in res4.items() if v)}
+        except Exception:
+            rep.extra["refactorings"] = {"error": (r4.stdout + r4.stderr)[-300:]}
     st = rep.extra.get("selftest", {})
     if isinstance(st, dict) and st.get("FAIL"):
         print(f"SELFTEST-WARN property={prop} {st} (checker self-test variants disagree on this tree; informational)")
